@@ -334,7 +334,7 @@ Place(toks, mode, salt) ==
       an == AnyIdx(toks)
   IN CASE mode = "none" -> <<>>
        [] mode = "lc"   -> <<CM("lc", nl)>>
-       [] mode = "bc"   -> <<CM("bc", <<0>> \o an)>>
+       [] mode = "bc"   -> <<CM("bc", <<0>> \o Every(an, 3, salt % 3))>>
        [] mode = "ol"   -> <<CM("ol", <<0>> \o nl)>>
        [] mode = "ob"   -> <<CM("ob", Every(nl, 2, 0)), CM("on", Every(nl, 2, 1))>>
        [] mode = "mix"  -> <<CM("lc", Every(nl, 3, 0)), CM("ol", Every(nl, 3, 1)), CM("ob", Every(nl, 3, 2)), CM("bc", Every(an, 4, 1))>>
